@@ -47,6 +47,20 @@ def step (_ : Unit) (ws : List String) : Unit × String :=
       ((), (baseExecute { chainId := rc, window := w, maxActions := 0 }
               { expiry := e, chainId := tc, actions := [], auth := ⟨-1, -1⟩ } ts).str)
     | _, _, _, _, _ => ((), "bad-op")
+  -- `admsw <group> <before|after> <delta> <winA> <maxA> <winB> <maxB> <nActions>`: admission with a
+  -- rule factory that switches from rules A to rules B at a scheduled time; `before`: the switch
+  -- lies 1.5 s after now, `after`: 0.1 s before now. expiry = now + delta, all ranges unbounded.
+  | ["admsw", _, phase, d, wa, ma, wb, mb, n] =>
+    match d.toInt?, wa.toInt?, ma.toNat?, wb.toInt?, mb.toNat?, n.toNat? with
+    | some d, some wa, some ma, some wb, some mb, some n =>
+      if phase ≠ "before" ∧ phase ≠ "after" then ((), "bad-op") else
+      let sw : Int := if phase == "before" then now0 + 1500 else now0 - 100
+      let rulesAt : Int → Rules := fun t =>
+        if t < sw then { chainId := 1, window := wa, maxActions := ma }
+        else { chainId := 1, window := wb, maxActions := mb }
+      let tx : Tx := { expiry := now0 + d, chainId := 1, actions := List.replicate n ⟨-1, -1⟩, auth := ⟨-1, -1⟩ }
+      ((), (admission rulesAt tx now0).str)
+    | _, _, _, _, _, _ => ((), "bad-op")
   | "pre" :: args => ((), runPre false args)
   | "admission" :: args => ((), runPre true args)
   | _ => ((), "bad-op")
